@@ -124,7 +124,13 @@ fn check(id: &str, tier: Tier) -> i32 {
     let t0 = Instant::now();
     let run = ent.1;
     let rep: Report = match engine::guarded(|| run(tier)) {
-        Ok(r) => r,
+        Ok(mut r) => {
+            for (i, (key, what)) in engine::take_deferred_violations().into_iter().enumerate() {
+                let key = if key.starts_with(static_id) || key.starts_with("out-of-scope:") { key } else { format!("{}:{}", static_id, key) };
+                r.violation(engine::Violation { key, ord: u64::MAX / 4 + i as u64, what, replay: serde_json::json!({"kind": "on-replay"}) });
+            }
+            r
+        }
         Err(p) => {
             eprintln!("machinery: check {} itself panicked: {}", id, p);
             return 2;
@@ -294,6 +300,12 @@ fn replay(path: &str) -> i32 {
             return 2;
         }
     };
+    if v["case"]["kind"].as_str() == Some("on-replay") {
+        // a failure that depends on what ran before it in the process: the whole check is the replay
+        let tier = if v["case"]["tier"].as_str() == Some("thorough") { Tier::Thorough } else { Tier::Quick };
+        std::env::set_var("VERIF_OUT", std::env::var("VERIF_OUT").unwrap_or_else(|_| "/tmp/verif_replay_out".into()));
+        return check(&id, tier);
+    }
     let f = ent.3;
     match engine::guarded(|| f(&v["case"])) {
         Ok(Ok(Some(what))) => {
